@@ -40,6 +40,27 @@ func seq(lo, hi int64) []int64 {
 
 func init() {
 	register(&Prop{
+		ID:          "C03",
+		HarnessDirs: []string{"astsig", "c03"},
+		Pkg:         "github.com/cloudwego/thriftgo/parser",
+		Diff:        []string{"D_C03_canonical", "D_C03_misc", "D_C03_unicode"},
+		Functions: []string{"parser.ParseString", "parser.(*ThriftIDL).Init/Parse (PEG rule closures of thrift.peg.go)", "parser.(*parser).parse and the tree walk (parseHeader..parseThrows)",
+			"parser.(*parser).pegText", "parser.(*Annotations).Append", "strconv.ParseInt/ParseFloat"},
+		Bounds: "totality: 34 syntactic contexts x N free ASCII bytes (quick N<=2, thorough N<=3) and one free byte >=0x80; ids/enum values: 3 members x 8 spellings with free digits; literals: 5 positions x 2 quotes x body of <=3 (thorough 4) free bytes; layout: every token boundary of a 190-token document with 1-2 free whitespace bytes, 3 comment styles with <=1 free byte, every list separator position",
+		Assumptions: []string{"input bytes outside the free region are the fixed context", "the 64 KiB quantifier of the property is far outside the bound", "decimal spellings with a leading zero are not generated (their meaning is not fixed by the statement)"},
+		Harnesses: []Harness{
+			{Func: "H_C03_total", Quick: cross(seq(0, 33), 0, 2), Thorough: cross(seq(0, 33), 0, 3), Covers: []string{"accepted", "rejected"}, StepLimitIsViolation: true},
+			{Func: "H_C03_total8", Quick: cross(seq(0, 33), 1, 2), Covers: []string{"end"}, StepLimitIsViolation: true},
+			{Func: "H_C03_ids", Quick: idTuples(5, true), Thorough: idTuples(5, false), Covers: []string{"end"}},
+			{Func: "H_C03_enum", Quick: enumTuples(true), Thorough: enumTuples(false), Covers: []string{"end"}},
+			{Func: "H_C03_literal", Quick: litTuples(3), Thorough: litTuples(4), Covers: []string{"compared", "rejected"}},
+			{Func: "H_C03_annotations", Covers: []string{"end"}},
+			{Func: "H_C03_layout_ws", Quick: cross(seq(1, 195), 1, 1), Thorough: cross(seq(1, 195), 1, 2), Covers: []string{"end"}},
+			{Func: "H_C03_layout_comment", Quick: commentTuples(1), Thorough: commentTuples(2), Covers: []string{"end"}},
+			{Func: "H_C03_layout_sep", Quick: rng(0, 20), Covers: []string{"end"}},
+		},
+	})
+	register(&Prop{
 		ID:          "C14",
 		HarnessDirs: []string{"c14"},
 		Pkg:         "github.com/cloudwego/thriftgo/fieldmask",
@@ -64,6 +85,62 @@ func digitTuples() [][]int64 {
 	for ctx := int64(0); ctx < 4; ctx++ {
 		for _, t := range [][2]int64{{0, 1}, {0, 2}, {0, 10}, {16, 3}, {17, 3}} {
 			r = append(r, []int64{ctx, t[0], t[1]})
+		}
+	}
+	return r
+}
+
+func idTuples(holders int64, quick bool) [][]int64 {
+	var r [][]int64
+	kinds := []int64{0, 1, 2, 3, 5, 6, 7}
+	for h := int64(0); h < holders; h++ {
+		for _, a := range kinds {
+			for _, b := range kinds {
+				for _, c := range kinds {
+					if quick && !(h == 0 || (a+b+c)%5 == h) {
+						continue
+					}
+					r = append(r, []int64{h, a, b, c})
+				}
+			}
+		}
+	}
+	return r
+}
+
+func enumTuples(quick bool) [][]int64 {
+	var r [][]int64
+	kinds := []int64{0, 1, 2, 3, 4, 5, 6, 7}
+	for _, a := range kinds {
+		for _, b := range kinds {
+			for _, c := range kinds {
+				if quick && (a*3+b*5+c)%3 != 0 {
+					continue
+				}
+				r = append(r, []int64{a, b, c})
+			}
+		}
+	}
+	return r
+}
+
+func litTuples(maxN int64) [][]int64 {
+	var r [][]int64
+	for pos := int64(0); pos < 5; pos++ {
+		for q := int64(0); q < 2; q++ {
+			for n := int64(0); n <= maxN; n++ {
+				r = append(r, []int64{pos, q, n})
+			}
+		}
+	}
+	return r
+}
+
+func commentTuples(maxN int64) [][]int64 {
+	var r [][]int64
+	for hole := int64(1); hole <= 195; hole++ {
+		for style := int64(0); style < 3; style++ {
+			r = append(r, []int64{hole, style, maxN})
 		}
 	}
 	return r
